@@ -223,7 +223,12 @@ class History(object):
             r = sim.call(cl.on_action_complete, a['id'],
                          sim.ml_actions.Result(data='late'))
         elif k == 'async_result':
-            ids = sorted(sim.W.inflight)
+            # (ordered by task / item / dispatch order, not by id: ids depend
+            # on how many were drawn before, e.g. by a duplicate message)
+            ids = sorted(sim.W.inflight, key=lambda a: (
+                str(sim.W.inflight[a].get('task')),
+                sim.W.inflight[a].get('index') or 0,
+                sim.W.inflight[a].get('step') or 0))
             if not ids:
                 return None
             aid = ids[c['sel'] % len(ids)]
